@@ -157,10 +157,46 @@ def _replay_search(a):
     return False, None, None, None
 
 
+def _purity(rep, seed=0):
+    from persim.persistent_entropy import persistent_entropy
+    from vlib.deductive import purity_probe
+    import warnings
+    rng = random.Random(seed + 9)
+    calls = []
+    for it in range(12):
+        k = rng.randint(2, 4)
+        D = np.array([[b, b + rng.uniform(0.5, 3)] for b in (rng.uniform(0, 3) for _i in range(k))], dtype=float)
+        if it % 3 != 2:
+            D[rng.randrange(k), 1] = np.inf
+        D2 = D.copy() + 1.0
+        kw = [{}, {"keep_inf": True, "val_inf": 9.0}, {"keep_inf": True, "val_inf": 20.0, "normalize": True}, {"normalize": True}][it % 4]
+        calls.append(("persistent_entropy(D, %s) on a float64 array" % kw, (lambda D=D, kw=kw: persistent_entropy(D, **kw)), [D]))
+        calls.append(("persistent_entropy([D, D2], %s) on float64 arrays" % kw, (lambda D=D, D2=D2, kw=kw: persistent_entropy([D, D2], **kw)), [D, D2]))
+    with warnings.catch_warnings():
+        warnings.simplefilter("ignore")
+        return purity_probe(rep, "persistent_entropy", calls, "entropy:argument-modified")
+
+
+def _replay_frame(a):
+    class C:
+        def __init__(self):
+            self.v = []
+
+        def violation(self, what, sig, payload, **k):
+            self.v.append((what, sig, payload))
+    c = C()
+    _purity(c)
+    if c.v:
+        what, sig, payload = c.v[0]
+        return True, payload, sig, what
+    return False, None, None, None
+
+
 def run(rep, tier, seed):
     from contracts.c16_entropy import all_contracts
     cs, table = all_contracts(tier)
-    run_contracts(rep, cs, table, tier=tier, replayers=[(r"persistent_entropy", _replay_search)])
+    run_contracts(rep, cs, table, tier=tier, replayers=[(r"\.frame\.", _replay_frame), (r"persistent_entropy", _replay_search)])
+    _purity(rep, seed)
     rep.assume("Sigma-extensionality and Sigma-positivity meta-rules (induction on n; applied by the generator after proving their pointwise premises)",
                "D6 boolean-mask indexing = order-preserving sub-array; log uninterpreted with sign facts only",
                "Jensen: 0 <= H <= log n with equality cases (sampled only)")
